@@ -247,6 +247,7 @@ static void fill_buf(rng_t* r, const bufspec_t* b, void* p, size_t bytes) {
 }
 
 __thread int op_exec_repeat;
+uint64_t ops_readonly_input_calls;  // input buffers that were write-protected during a call (process-wide)
 static __thread int op_exec_oom;  // every allocation request made inside the call fails (build tag "oom")
 // data variant (shapes and scalar parameters still derive from the seed alone): 0 the seed's data; 1 other random data; 2 the seed's
 // data with the first two limbs (blocks of N words, or the two halves of the buffer) exchanged; 3 the seed's data with one word
@@ -387,9 +388,18 @@ void op_exec(const opdef_t* o, const env_t* env, uint64_t seed, int prefill, uns
   const unsigned csr0 = _mm_getcsr();
   unsigned short cw0, cw1;
   __asm__ volatile("fnstcw %0" : "=m"(cw0));
+  // const inputs that live in a mapping of their own are read-only while the call runs (a transient write faults)
+  int ro_applied[OP_MAXB] = {0};
+  for (int i = 0; i < pl.nb; i++)
+    if (pl.b[i].role == R_IN) ro_applied[i] = gb_readonly(pl.b[i].is_zvec ? &z[i].g : &g[i], 1);
   if (op_exec_oom) vp_oom_arm(1);
   o->call(&pl, p, env);
   if (op_exec_oom) vp_oom_arm(0);
+  for (int i = 0; i < pl.nb; i++)
+    if (ro_applied[i]) {
+      gb_readonly(pl.b[i].is_zvec ? &z[i].g : &g[i], 0);
+      __atomic_add_fetch(&ops_readonly_input_calls, 1, __ATOMIC_RELAXED);
+    }
   __asm__ volatile("fnstcw %0" : "=m"(cw1));
   {
     // the rest of the CPU state a C caller relies on (System V ABI): direction flag clear, x87 register stack empty (a kernel
@@ -2348,7 +2358,14 @@ void ops_recontent_case(const char* key, const char* const* names, int n, uint64
     if (!o) harness_fail("ops_recontent_case: unknown entry %s", names[i]);
     for (int s = 0; s < reps; s++) {
       opres_t r;
+      // the placement of the buffers rotates per call (separate blocks, one arena, guard pages, own mappings far apart - whose const
+      // inputs are write-protected during the call -, packed, nearby page offsets)
+      const int sp = g_case_place, sa = g_case_aligned;
+      g_case_place = (int)((s + i) % 9);
+      g_case_aligned = 0;
       op_exec(o, e, mix64(G.seed * 131 + rep * 1009 + (uint64_t)s * 7 + (uint64_t)i), s & 3, (unsigned)s, MON_CANARY | MON_RECONTENT, &r);
+      g_case_place = sp;
+      g_case_aligned = sa;
       if (r.skipped) continue;
       calls++;
       if (r.rerun_differs && nv++ < 3) viol("history", "%s [N=%" PRIu64 " shape=%s, %s]: %s", o->name, N, r.shape, disp_name[cfg], r.msg);
@@ -2357,6 +2374,7 @@ void ops_recontent_case(const char* key, const char* const* names, int n, uint64
   }
   env_destroy(e);
   cnt(counter, calls);
+  cnt("calls_with_write_protected_inputs", __atomic_exchange_n(&ops_readonly_input_calls, 0, __ATOMIC_RELAXED));
   sample("%d entry points x %d argument sets: second call on the same buffers with other data equals a fresh call", n, reps);
   case_end(calls > 0);
 }
